@@ -31,6 +31,7 @@ Section Wif.
 
   (* WifDecoder.Decode(wif_str, net_ver) *)
   Definition wif_decode (wif_str net_ver : list N) : res (list N * bool) :=
+    if negb (length net_ver =? 1)%nat then Err ValueError else      (* "Invalid net version length" *)
     priv_key_bytes <- check_decode alph radix cklen sha256 wif_str ;;
     if (length priv_key_bytes =? 0)%nat then Err ValueError else    (* "Invalid decoded key (empty)" *)
     first <- of_option (hd_error priv_key_bytes) IndexError ;;      (* priv_key_bytes[0] *)
